@@ -6,13 +6,15 @@
 (* machine computes (flags = {}).  Otherwise the acceptor prints                            *)
 (* the first differing position and the smallest set of named deviations (PyScope flags)   *)
 (* that explains the whole log ("unexplained" if none does).  Runs in which Python raises    *)
-(* NameError for `name.attr` on an unbound name (pyscript: a state variable, documented) are *)
-(* not demanded of pyscript (INFO skip); CPython's own log must match in every case.         *)
+(* NameError for `name.attr` on an unbound name (pyscript: a state variable, documented), or *)
+(* in which an except-handler deletes its own target (handler exit protocol: C02), are not   *)
+(* demanded of pyscript (INFO line); CPython's own log must match in every case.             *)
 EXTENDS PyScope, Json, IOUtils
 Cases == JsonDeserialize(IOEnv.CASES)
 AllFlags == {"defaults-first", "weak-self", "native-no-enclosing", "class-no-enclosing", "global-decl-leaks",
              "del-global-silent"}
-MarkNames == {"comp", "ucap", "excas"}
+MarkNames == {"comp", "ucap", "excas", "ndflt"}
+NotDemanded == {"sv", "xdel"}
 
 RECURSIVE FirstDiff(_, _, _)
 FirstDiff(a, b, j) == IF j > Len(a) \/ j > Len(b) THEN j ELSE IF a[j] = b[j] THEN FirstDiff(a, b, j + 1) ELSE j
@@ -57,7 +59,7 @@ Report == i > 0 =>
      /\ \A k \in 1..Len(c.logs) :
           LET who == c.logs[k].who  obs == c.logs[k].log IN
           IF e = obs THEN TRUE
-          ELSE IF r.marks["sv"] # 0 /\ who = "pyscript" THEN TRUE          \* not demanded: see header
+          ELSE IF who = "pyscript" /\ \E m \in NotDemanded : r.marks[m] # 0 THEN TRUE     \* not demanded: see header
           ELSE LET j == FirstDiff(e, obs, 1) IN
                PrintT("REJECT " \o ToJson([id |-> c.id, who |-> who, pos |-> j, exp |-> At(e, j), obs |-> At(obs, j),
                                            why |-> IF who = "pyscript" THEN Explain(c, obs) ELSE <<"unexplained">>]))
